@@ -56,6 +56,7 @@ var c20Templates = []string{
 	"{% case x %}{% when 1 %}one{% else %}other{% endcase %}!",
 	"{% assign q = x | plus: 1 %}{{ q }}{% unless false %}u{% endunless %}",
 	"{% include 'inc.html' %}after",
+	"head {{ x }} menu: {% include 'inc.html' %} tail",
 	"{% tablerow i in (1..3) %}{{ i }}{% break %}{% endtablerow %}",
 	"{% tablerow i in (1..3) cols: 2 %}{% if i == 2 %}{% continue %}{% endif %}{{ i }}{% endtablerow %}x",
 	"{% for i in (1..3) %}{{ i }}{% if i == 2 %}{% break %}{% endif %}{% endfor %}y",
@@ -101,7 +102,7 @@ func VerifC20Fault() {
 	b := Bindings{"x": 1, "y": "yy"}
 	e := c20Engine()
 	located := nd.Choice(2) == 1
-	if t == "{% include 'inc.html' %}after" {
+	if t == "{% include 'inc.html' %}after" || t == "head {{ x }} menu: {% include 'inc.html' %} tail" {
 		nd.Assume(!located) // the included source is registered for the unlocated spelling
 	}
 	tpl, perr := e.ParseTemplate([]byte(t))
